@@ -146,6 +146,14 @@ func streamProto(c *Ctx) {
 			sp = append(sp, specs[j].String())
 		}
 		inner := c.rng.Bytes(c.rng.Pick([]int{0, 1, 50, 127, 128, 400}))
+		switch c.rng.Intn(10) {
+		case 0: // the inner transaction is itself a valid index wrapper encoding
+			inner, _ = tx.MarshalIndexWrapper(c.rng.Bytes(c.rng.Range(1, 30)), uint32(c.rng.Intn(100)), uint32(c.rng.Intn(70000)))
+		case 1: // ... or a valid blob transaction encoding
+			inner, _ = tx.MarshalBlobTx(c.rng.Bytes(c.rng.Range(1, 30)), blobs[0])
+		case 2: // ... or a valid blob encoding
+			inner, _ = blobs[0].Marshal()
+		}
 		raw, err := tx.MarshalBlobTx(inner, blobs...)
 		op := fmt.Sprintf("proto mblobtx %s %s", hx(inner), strings.Join(sp, ";"))
 		c.emit(op, okOr(err, fmt.Sprintf("ok %d:%s", len(raw), dig(raw))))
@@ -192,6 +200,12 @@ func streamProto(c *Ctx) {
 		idx := make([]uint32, c.rng.Range(0, 4))
 		for j := range idx {
 			idx[j] = uint32(c.rng.Pick([]int{0, 1, 127, 128, 16383, 16384, 1 << 21, 1<<32 - 1}))
+		}
+		if c.rng.Chance(1, 8) { // wrap something that is itself a wrapper / blob tx
+			inner = raw
+			if c.rng.Bool() {
+				inner, _ = tx.MarshalIndexWrapper([]byte("inner"), 3, 4)
+			}
 		}
 		wraw, _ := tx.MarshalIndexWrapper(inner, idx...)
 		op2 := fmt.Sprintf("proto miw %s %s", hx(inner), dotIfEmpty(natList(idx)))
@@ -390,6 +404,43 @@ func streamProto(c *Ctx) {
 	}
 	c.stats.Exhaustive = append(c.stats.Exhaustive, "JSON round trip of every boundary namespace (reserved constants, neighbours, other versions)")
 	c.stats.Exhaustive = append(c.stats.Exhaustive, "acceptance grid: share version 0..300 x 7 signer shapes x data length {0,1,5} (x 6 namespace classes for the boundary versions) through NewBlob, protobuf and JSON")
+	// hand-written JSON documents: explicit empty strings and nulls cannot be produced by json.Marshal (omitempty)
+	// but are valid inputs; acceptance must agree with NewBlob on the decoded field values
+	{
+		nsid := base64.StdEncoding.EncodeToString(pool[0].ID())
+		one := base64.StdEncoding.EncodeToString([]byte{1})
+		sg20 := base64.StdEncoding.EncodeToString(bytes.Repeat([]byte{7}, 20))
+		type jcase struct {
+			doc  string
+			want bool
+			why  string
+		}
+		var docs []jcase
+		for _, sv := range []int{0, 1} {
+			for _, signer := range []struct {
+				frag string
+				n    int // -1 absent/null (nil), else length
+			}{{"", -1}, {`,"signer":null`, -1}, {`,"signer":""`, 0}, {`,"signer":"` + sg20 + `"`, 20}} {
+				for _, data := range []struct {
+					frag string
+					n    int
+				}{{`,"data":"` + one + `"`, 1}, {`,"data":""`, 0}, {"", 0}} {
+					doc := fmt.Sprintf(`{"namespace_id":"%s","namespace_version":0,"share_version":%d%s%s}`, nsid, sv, data.frag, signer.frag)
+					want := data.n > 0 && ((sv == 0 && signer.n == -1) || (sv == 1 && signer.n == 20))
+					docs = append(docs, jcase{doc, want, fmt.Sprintf("share version %d, signer length %d (-1 = absent), data length %d", sv, signer.n, data.n)})
+				}
+			}
+		}
+		for _, d := range docs {
+			c.oracle()
+			var jb share.Blob
+			err := json.Unmarshal([]byte(d.doc), &jb)
+			if (err == nil) != d.want {
+				c.violate("C19", "", fmt.Sprintf("Blob.UnmarshalJSON accepted=%v, specified=%v for a hand-written document with %s", err == nil, d.want, d.why), d.doc, nil)
+			}
+		}
+		c.stats.Exhaustive = append(c.stats.Exhaustive, fmt.Sprintf("%d hand-written JSON blob documents (explicit empty / null / absent signer and data x share version)", len(docs)))
+	}
 	// namespace versions / id lengths through protobuf
 	for _, nv := range []uint32{0, 1, 254, 255, 256, 1 << 20} {
 		for _, il := range []int{0, 27, 28, 29} {
